@@ -196,12 +196,16 @@ def mc_cached(module: str, cfg: str, *, workers='auto', timeout=3600, coverage=F
         return d
 
 
-def add_mc(v, d: dict, label: str, expect_violation: str | None = None):
-    """fold a cached design-level TLC result into a Verdict"""
+def add_mc(v, d: dict, label: str, expect_violation: str | None = None, need_actions: tuple = ()):
+    """fold a cached design-level TLC result into a Verdict; need_actions: actions that must have been taken (vacuity guard)"""
+    for a in need_actions:
+        if d.get('coverage') and d['coverage'].get(a, 0) == 0:
+            raise Machinery(f'vacuity guard: action {a} was never taken in {d["cfg"]}')
     v.states += d['distinct']
     v.transitions += d['generated']
     v.extra.setdefault('tlc_runs', []).append({'label': label, 'config': d['cfg'], 'distinct_states': d['distinct'],
                                                 'states_generated': d['generated'], 'depth': d['depth'], 'wall_s': d['wall_s'],
+                                                **({'action_coverage': d['coverage']} if d.get('coverage') else {}),
                                                 **({'expected_counterexample_found': d['violated'] == expect_violation} if expect_violation else {})})
     if expect_violation:
         if d['violated'] != expect_violation:
